@@ -417,6 +417,14 @@ func (e *SpecEnv) evalCall(x *ast.CallExpr) Val {
 			e.run.prog.World.decls.declare("app_T", "(declare-fun app_T (Fn T) Real)")
 			return realV(sx("app_T", fn, arg(1).T))
 		}
+	case "catoff":
+		// catoff(xs, dim, n): sum over k < n of dim(xs[k], dim)
+		xs := arg(0)
+		if xs.K != KSlice || xs.S.Off != "0" {
+			specFail("catoff: first argument must be an unsliced []Tensor")
+		}
+		e.run.needDomain("dsumT")
+		return intV(sx("dsumT", e.run.sliceArr(e.st, xs.S), arg(1).T, arg(2).T))
 	case "preexisting":
 		v := arg(0)
 		if v.K != KRef {
